@@ -84,6 +84,8 @@ def check(ck, F, rule, prefixes, floor):
         fn = F.resolve(fid)
         if fn is None or "mir" not in fn:
             continue            # renamed / removed: not comparable
+        if flow.calls_new_function(F, fn):
+            continue            # refactored by extraction into a new helper: not comparable
         b = Body(fn)
         pn = set(_param_names(b).values())
         cur = function_influences(fn)
